@@ -10,6 +10,8 @@ from tiv.mutate import M
 from tiv.sem import same, literals, origin, _bindings as sem_bindings
 
 RULES = {
+    "MEMO": "memo safety (shared, rules/common.py): a memoised function in this property's files (or called from them) is a function of its "
+            "arguments only (no terminal/ambient/receiver state outside the key) and no caller mutates its result in place",
     "R1": "every termios.tcsetattr whose attribute argument is not a saved original lies inside the body of a "
           "try whose finalbody calls tcsetattr on the same fd with a saved original (restore on every exit kind)",
     "R2": "the saved original is bound exactly once, from its own tcgetattr call, outside/before the protecting "
@@ -194,8 +196,12 @@ def run(ck, m):
     ck.extra["modifying_calls"] = n_modify
     ck.extra["restoring_calls"] = n_restore
 
+    from rules.common import rule_memo_safety
+    rule_memo_safety(ck, m, "MEMO", "C13")
+
 
 U, R = "utils.py", "renderable/_renderable.py"
+
 MUTANTS = [
     M("hoist-set-query", U, "query_terminal",
       "    try:\n        termios.tcsetattr(_tty_fd, termios.TCSAFLUSH, new_attr)\n",
